@@ -35,9 +35,12 @@ for d in sorted((V / "seeded").iterdir()):
         meta["recheck"] = {"property": pid, "verdict": verdict, "exit": c.returncode, "lines": lines[:3], "existing_tests": tests}
         (d / "meta.json").write_text(json.dumps(meta, indent=1))
         rows.append((d.name, verdict + " | " + (lines[0] if lines else "")[:110]))
+        print("%-42s %s" % rows[-1], flush=True)
     finally:
         shutil.rmtree(tmp, ignore_errors=True)
+print("---- %d seeds: %d caught by the check of their own property" % (len(rows), sum(1 for r in rows if r[1].startswith("caught"))), flush=True)
 for r in rows:
-    print("%-42s %s" % r)
+    if not r[1].startswith("caught"):
+        print("%-42s %s" % r)
 # restore Gen for /repo
 subprocess.run(["python3", str(V / "tools" / "setup.py")], capture_output=True)
